@@ -437,4 +437,507 @@ theorem expText_closed (c : FConv) (f : Flags) (W : Nat) (prec : FPrec) (e : Int
   cases c <;> simp [closedParams, isHex, FConv.upper] <;>
     (rcases hd : natDigits 10 false e.natAbs with _ | ⟨a, _ | ⟨b, t⟩⟩ <;> simp_all)
 
+theorem closed_upper (c : FConv) (f : Flags) (W : Nat) (prec : FPrec) :
+    decide ((closedParams c f W prec).base < 0) = c.upper := by
+  cases c <;> simp [closedParams, fBaseInt, FConv.upper]
+
+/-- the base prefix of the specification -/
+def fPrefix : FConv → List Char
+  | .a => ['0', 'x']
+  | .A => ['0', 'X']
+  | _ => []
+
+theorem showbase_closed (c : FConv) (f : Flags) (W : Nat) (prec : FPrec) (a fl : Nat) (h : isHex c = true ∨ True) :
+    (if (closedParams c f W prec).showbase = .no then ([] : List Char)
+      else if (closedParams c f W prec).showbase = .nonzero ∧ a = 0 ∧ fl = 0 then []
+      else (if (closedParams c f W prec).base = 16 then ['0', 'x'] else if (closedParams c f W prec).base = -16 then ['0', 'X']
+            else if (closedParams c f W prec).base = 8 then ['0'] else [])) = fPrefix c := by
+  cases c <;> cases hh : f.hash <;> simp [closedParams, isHex, fBaseInt, fPrefix, hh]
+
+/-- `emit` on the fixed layout, for e-less styles of f g G -/
+theorem emit_fixed (c : FConv) (hc : isHex c = false) (f : Flags) (W : Nat) (prec : FPrec) (sign : Option Char)
+    (ds : List Nat) (x : Int) (prec' : Int) (fracLen : Option Nat)
+    (hpz : (if (closedParams c f W prec).showtrailing then
+          (prec' - ((((-x).toNat + (ds.length - fA ds.length x) : Nat) : Int) +
+            (if (closedParams c f W prec).conv = 3 then ((fA ds.length x + fIz ds.length x : Nat) : Int) else 0))).toNat else 0) =
+        match fracLen with | some P => P - ((-x).toNat + (ds.length - fA ds.length x)) | none => 0) :
+    callsBytes (emit (closedParams c f W prec) sign (ds.map (digitChar c.upper)) prec' (fixedParts ds.length x)) =
+      padF f W sign.toList [] (styleF c.upper ds x fracLen f.hash) := by
+  rw [fixedParts_nat, emit_bytes _ _ _ _ _ _ _ _ _ W rfl (by simp [fA]; split <;> omega)]
+  simp only []
+  rw [hpz, showbase_closed c f W prec _ _ (Or.inr trivial), pad_closed]
+  have hsp : (closedParams c f W prec).showpoint = f.hash := by simp [closedParams, hc]
+  rw [hsp]
+  have hp : fPrefix c = [] := by cases c <;> simp_all [fPrefix, isHex]
+  rw [hp, append_nil, fixed_bytes _ _ _ _ _ fracLen rfl]
+
+def expLetter (c : FConv) : Char :=
+  if isHex c then (if c.upper then 'P' else 'p') else (if c.upper then 'E' else 'e')
+
+/-- `emit` on the scientific layout -/
+theorem emit_sci (c : FConv) (f : Flags) (W : Nat) (prec : FPrec) (sign : Option Char)
+    (ds : List Nat) (x : Int) (prec' : Int) (fracLen : Option Nat) (hz : ds = [] → x = 0)
+    (hpz : (if (closedParams c f W prec).showtrailing then
+          (prec' - ((((0 : Nat) + (ds.length - min 1 ds.length) : Nat) : Int) +
+            (if (closedParams c f W prec).conv = 3 then ((min 1 ds.length + (if ds.length = 0 then 1 else 0) : Nat) : Int) else 0))).toNat else 0) =
+        match fracLen with | some P => P - (ds.length - min 1 ds.length) | none => 0) :
+    callsBytes (emit (closedParams c f W prec) sign (ds.map (digitChar c.upper)) prec' (sciParts (closedParams c f W prec) ds.length x)) =
+      padF f W sign.toList (fPrefix c)
+        (styleE c.upper ds x fracLen (f.hash && !isHex c) (expLetter c) (if isHex c then 1 else 2) (if isHex c then 4 else 1)) := by
+  rw [sciParts_nat, emit_bytes _ _ _ _ _ _ _ _ _ W rfl (by simp)]
+  simp only []
+  rw [hpz, showbase_closed c f W prec _ _ (Or.inr trivial), pad_closed, expText_closed]
+  have hsp : (closedParams c f W prec).showpoint = (f.hash && !isHex c) := by simp [closedParams]
+  have h4 : (if (closedParams c f W prec).exptimes4 = true then (4 : Int) else 1) = (if isHex c then 4 else 1) := by simp [closedParams]
+  rw [hsp, h4]
+  have := sci_bytes c.upper ds x _ (f.hash && !isHex c) fracLen (expLetter c) (if isHex c then 1 else 2) (if isHex c then 4 else 1) hz rfl
+  rw [← this]
+  rfl
+
+theorem strip_roundUp (b : Nat) (ds : List Nat) (x : Int) :
+    MpfStr.stripTrailingZeros (MpfStr.roundUp b ds x).1 = (MpfStr.roundUp b ds x).1 := by
+  unfold MpfStr.roundUp MpfStr.stripTrailingZeros
+  cases h : dropWhile (fun d => d + 1 == b) ds.reverse with
+  | nil => simp
+  | cons d rest => simp [dropWhile]
+
+/-- doprntf.c's second rounding is the rule of mpf_get_str applied once more (D-F2, D-F3) -/
+theorem fixedRound_eq_roundAt (b : Nat) (ds : List Nat) (x prec : Int) :
+    fixedRound b ds x prec = roundAt b ds x (x + prec) := by
+  unfold fixedRound roundAt
+  simp only []
+  by_cases h1 : x + prec < 0
+  · simp [h1]
+  · simp only [h1, if_false]
+    by_cases h2 : (ds.length : Int) ≤ x + prec
+    · simp [h2]
+    · simp only [h2, if_false]
+      have hlen : ds.length > (x + prec).toNat := by omega
+      unfold MpfStr.finish
+      have hthr : (ds.getD (x + prec).toNat 0 ≥ (b + 1) / 2) ↔ (2 * ds.getD (x + prec).toNat 0 ≥ b) := by omega
+      by_cases h3 : 2 * ds.getD (x + prec).toNat 0 ≥ b
+      · have h3' := hthr.mpr h3
+        simp only [h3', if_true, hlen, h3, and_self, strip_roundUp]
+        split <;> simp_all
+      · have h3' : ¬ (ds.getD (x + prec).toNat 0 ≥ (b + 1) / 2) := fun h => h3 (hthr.mp h)
+        simp only [h3', if_false, hlen, h3, and_false]
+        split <;> simp_all
+
+theorem request_fst (P : Params) (fprec : Nat) (fexp : Int) :
+    (request P fprec fexp).1 = if P.prec ≤ -1 ∧ P.conv = 3 then (mpfSignificantDigits P.base.natAbs fprec : Int) else P.prec := by
+  unfold request
+  simp only []
+  split_ifs <;> simp_all
+
+theorem fixedRound_all (b : Nat) (ds : List Nat) (x : Int) :
+    fixedRound b ds x (max 0 ((ds.length : Int) - x)) = (ds, x) := by
+  unfold fixedRound
+  simp only []
+  have h1 : ¬ (x + max 0 ((ds.length : Int) - x) < 0) := by omega
+  have h2 : (ds.length : Int) ≤ x + max 0 ((ds.length : Int) - x) := by omega
+  simp [h1, h2]
+
+theorem specF_prefix (c : FConv) : (match c with | .a => ['0', 'x'] | .A => ['0', 'X'] | _ => ([] : List Char)) = fPrefix c := by
+  cases c <;> rfl
+
+/-- model = specification, on the closed parameters -/
+theorem layoutOn_closed (c : FConv) (f : Flags) (W : Nat) (prec : FPrec) (fprec : Nat) (fexp : Int)
+    (neg : Bool) (ds : List Nat) (x : Int) (hz : ds = [] → x = 0) :
+    callsBytes (layoutOn (closedParams c f W prec) (request (closedParams c f W prec) fprec fexp).1 neg ds x) =
+      specF c f W prec (mpfSignificantDigits c.base fprec) neg ds x := by
+  unfold layoutOn specF
+  simp only [closed_upper, specF_prefix]
+  rw [← sign_closed c f W prec neg]
+  generalize (if neg = true then some '-' else (closedParams c f W prec).sign) = sign
+  cases c with
+  | f =>
+    have hP : (closedParams .f f W prec).conv = 1 := rfl
+    have hb : (closedParams .f f W prec).base.natAbs = 10 := rfl
+    have hst : (closedParams .f f W prec).showtrailing = true := by simp [closedParams, isHex, convNum]
+    rw [request_fst]
+    unfold choose bodyF
+    simp only [hP, hb, if_true, show ¬ ((1 : Nat) = 3) by decide, and_false, if_false]
+    cases prec with
+    | all =>
+      have hp1 : (closedParams .f f W .all).prec = -1 := rfl
+      simp only [hp1, show ((-1 : Int) ≤ -1) by decide, if_true, fixedRound_all]
+      rw [emit_fixed .f rfl f W .all sign ds x _ none]
+      simp only [hst, hP, if_true, show ¬ ((1 : Nat) = 3) by decide, if_false]
+      unfold fA
+      split <;> omega
+    | dflt =>
+      have hp1 : (closedParams .f f W .dflt).prec = 6 := rfl
+      simp only [hp1, show ¬ ((6 : Int) ≤ -1) by decide, if_false, fixedRound_eq_roundAt]
+      rw [emit_fixed .f rfl f W .dflt sign _ _ _ (some 6)]
+      simp only [hst, hP, if_true, show ¬ ((1 : Nat) = 3) by decide, if_false]
+      omega
+    | num n =>
+      have hp1 : (closedParams .f f W (.num n)).prec = (n : Int) := rfl
+      simp only [hp1, show ¬ ((n : Int) ≤ -1) by omega, if_false, fixedRound_eq_roundAt]
+      rw [emit_fixed .f rfl f W (.num n) sign _ _ _ (some n)]
+      simp only [hst, hP, if_true, show ¬ ((1 : Nat) = 3) by decide, if_false]
+      omega
+  | e =>
+    have hP : (closedParams .e f W prec).conv = 2 := rfl
+    have hst : (closedParams .e f W prec).showtrailing = true := by simp [closedParams, isHex, convNum]
+    rw [request_fst]
+    unfold choose bodyF
+    simp only [hP, show ¬ ((2 : Nat) = 1) by decide, show ¬ ((2 : Nat) = 3) by decide, and_false, if_false, if_true]
+    cases prec with
+    | all =>
+      have hp1 : (closedParams .e f W .all).prec = -1 := rfl
+      simp only [hp1, show ((-1 : Int) ≤ -1) by decide, if_true]
+      rw [emit_sci .e f W .all sign ds x _ none hz]
+      · simp [isHex, expLetter, FConv.upper, fPrefix]
+      · simp only [hst, hP, if_true, show ¬ ((2 : Nat) = 3) by decide, if_false]
+        omega
+    | dflt =>
+      have hp1 : (closedParams .e f W .dflt).prec = 6 := rfl
+      simp only [hp1, show ¬ ((6 : Int) ≤ -1) by decide, if_false]
+      rw [emit_sci .e f W .dflt sign ds x _ (some 6) hz]
+      · simp [isHex, expLetter, FConv.upper, fPrefix]
+      · simp only [hst, hP, if_true, show ¬ ((2 : Nat) = 3) by decide, if_false]
+        omega
+    | num n =>
+      have hp1 : (closedParams .e f W (.num n)).prec = (n : Int) := rfl
+      simp only [hp1, show ¬ ((n : Int) ≤ -1) by omega, if_false]
+      rw [emit_sci .e f W (.num n) sign ds x _ (some n) hz]
+      · simp [isHex, expLetter, FConv.upper, fPrefix]
+      · simp only [hst, hP, if_true, show ¬ ((2 : Nat) = 3) by decide, if_false]
+        omega
+  | E =>
+    have hP : (closedParams .E f W prec).conv = 2 := rfl
+    have hst : (closedParams .E f W prec).showtrailing = true := by simp [closedParams, isHex, convNum]
+    rw [request_fst]
+    unfold choose bodyF
+    simp only [hP, show ¬ ((2 : Nat) = 1) by decide, show ¬ ((2 : Nat) = 3) by decide, and_false, if_false, if_true]
+    cases prec with
+    | all =>
+      have hp1 : (closedParams .E f W .all).prec = -1 := rfl
+      simp only [hp1, show ((-1 : Int) ≤ -1) by decide, if_true]
+      rw [emit_sci .E f W .all sign ds x _ none hz]
+      · simp [isHex, expLetter, FConv.upper, fPrefix]
+      · simp only [hst, hP, if_true, show ¬ ((2 : Nat) = 3) by decide, if_false]
+        omega
+    | dflt =>
+      have hp1 : (closedParams .E f W .dflt).prec = 6 := rfl
+      simp only [hp1, show ¬ ((6 : Int) ≤ -1) by decide, if_false]
+      rw [emit_sci .E f W .dflt sign ds x _ (some 6) hz]
+      · simp [isHex, expLetter, FConv.upper, fPrefix]
+      · simp only [hst, hP, if_true, show ¬ ((2 : Nat) = 3) by decide, if_false]
+        omega
+    | num n =>
+      have hp1 : (closedParams .E f W (.num n)).prec = (n : Int) := rfl
+      simp only [hp1, show ¬ ((n : Int) ≤ -1) by omega, if_false]
+      rw [emit_sci .E f W (.num n) sign ds x _ (some n) hz]
+      · simp [isHex, expLetter, FConv.upper, fPrefix]
+      · simp only [hst, hP, if_true, show ¬ ((2 : Nat) = 3) by decide, if_false]
+        omega
+  | g =>
+    have hb : ∀ pr, (closedParams .g f W pr).base.natAbs = 10 := fun _ => rfl
+    rw [request_fst]
+    unfold choose bodyF
+    simp only [show ∀ pr, (closedParams .g f W pr).conv = 3 from fun _ => rfl, hb, show ¬ ((3 : Nat) = 1) by decide,
+      show ¬ ((3 : Nat) = 2) by decide, and_true, if_false, if_true]
+    cases prec with
+    | dflt =>
+      have hP : (closedParams .g f W .dflt).conv = 3 := rfl
+      have hst : (closedParams .g f W .dflt).showtrailing = f.hash := by simp [closedParams, isHex, convNum]
+      have hprec : (if (closedParams .g f W .dflt).prec ≤ -1 then (mpfSignificantDigits 10 fprec : Int)
+          else (closedParams .g f W .dflt).prec) = ((6 : Nat) : Int) := by
+        rfl
+      rw [hprec]
+      have hmax : (((max 1 (6) : Nat)) : Int) = max 1 ((6 : Nat) : Int) := by omega
+      simp only [show FConv.g.base = 10 from rfl, hmax]
+      by_cases hs : x - 1 < -4 ∨ x - 1 ≥ max 1 ((6 : Nat) : Int)
+      · simp only [hs, if_true]
+        cases hh : f.hash with
+        | true =>
+          rw [emit_sci .g f W .dflt sign ds x _ (some (max 1 (6) - 1)) hz]
+          · simp [isHex, expLetter, FConv.upper, fPrefix, hh]
+          · simp only [hst, hP, hh, if_true]
+            by_cases hl : ds.length = 0
+            · simp only [hl, eq_self_iff_true, if_true]; omega
+            · simp only [hl, if_false]; omega
+        | false =>
+          rw [emit_sci .g f W .dflt sign ds x _ none hz]
+          · simp [isHex, expLetter, FConv.upper, fPrefix, hh]
+          · simp [hst, hh]
+      · simp only [hs, if_false]
+        cases hh : f.hash with
+        | true =>
+          rw [emit_fixed .g rfl f W .dflt sign ds x _ (some (if x ≥ 1 then (6) - x.toNat else (6) - 1))]
+          · simp [FConv.upper, hh]
+          · simp only [hst, hP, hh, if_true]
+            unfold fA fIz
+            by_cases hx : x ≤ 0
+            · have : ¬ x ≥ 1 := by omega
+              simp only [hx, this, if_true, if_false]; omega
+            · have : x ≥ 1 := by omega
+              simp only [hx, this, if_true, if_false]; omega
+        | false =>
+          rw [emit_fixed .g rfl f W .dflt sign ds x _ none]
+          · simp [FConv.upper, hh]
+          · simp [hst, hh]
+    | all =>
+      have hP : (closedParams .g f W .all).conv = 3 := rfl
+      have hst : (closedParams .g f W .all).showtrailing = f.hash := by simp [closedParams, isHex, convNum]
+      have hprec : (if (closedParams .g f W .all).prec ≤ -1 then (mpfSignificantDigits 10 fprec : Int)
+          else (closedParams .g f W .all).prec) = ((mpfSignificantDigits 10 fprec : Nat) : Int) := by
+        rfl
+      rw [hprec]
+      have hmax : (((max 1 (mpfSignificantDigits 10 fprec) : Nat)) : Int) = max 1 ((mpfSignificantDigits 10 fprec : Nat) : Int) := by omega
+      simp only [show FConv.g.base = 10 from rfl, hmax]
+      by_cases hs : x - 1 < -4 ∨ x - 1 ≥ max 1 ((mpfSignificantDigits 10 fprec : Nat) : Int)
+      · simp only [hs, if_true]
+        cases hh : f.hash with
+        | true =>
+          rw [emit_sci .g f W .all sign ds x _ (some (max 1 (mpfSignificantDigits 10 fprec) - 1)) hz]
+          · simp [isHex, expLetter, FConv.upper, fPrefix, hh]
+          · simp only [hst, hP, hh, if_true]
+            by_cases hl : ds.length = 0
+            · simp only [hl, eq_self_iff_true, if_true]; omega
+            · simp only [hl, if_false]; omega
+        | false =>
+          rw [emit_sci .g f W .all sign ds x _ none hz]
+          · simp [isHex, expLetter, FConv.upper, fPrefix, hh]
+          · simp [hst, hh]
+      · simp only [hs, if_false]
+        cases hh : f.hash with
+        | true =>
+          rw [emit_fixed .g rfl f W .all sign ds x _ (some (if x ≥ 1 then (mpfSignificantDigits 10 fprec) - x.toNat else (mpfSignificantDigits 10 fprec) - 1))]
+          · simp [FConv.upper, hh]
+          · simp only [hst, hP, hh, if_true]
+            unfold fA fIz
+            by_cases hx : x ≤ 0
+            · have : ¬ x ≥ 1 := by omega
+              simp only [hx, this, if_true, if_false]; omega
+            · have : x ≥ 1 := by omega
+              simp only [hx, this, if_true, if_false]; omega
+        | false =>
+          rw [emit_fixed .g rfl f W .all sign ds x _ none]
+          · simp [FConv.upper, hh]
+          · simp [hst, hh]
+    | num n =>
+      have hP : (closedParams .g f W (.num n)).conv = 3 := rfl
+      have hst : (closedParams .g f W (.num n)).showtrailing = f.hash := by simp [closedParams, isHex, convNum]
+      have hprec : (if (closedParams .g f W (.num n)).prec ≤ -1 then (mpfSignificantDigits 10 fprec : Int)
+          else (closedParams .g f W (.num n)).prec) = ((n : Nat) : Int) := by
+        have hp1 : (closedParams .g f W (.num n)).prec = (n : Int) := rfl
+        simp only [hp1, show ¬ ((n : Int) ≤ -1) by omega, if_false]
+      rw [hprec]
+      have hmax : (((max 1 (n) : Nat)) : Int) = max 1 ((n : Nat) : Int) := by omega
+      simp only [show FConv.g.base = 10 from rfl, hmax]
+      by_cases hs : x - 1 < -4 ∨ x - 1 ≥ max 1 ((n : Nat) : Int)
+      · simp only [hs, if_true]
+        cases hh : f.hash with
+        | true =>
+          rw [emit_sci .g f W (.num n) sign ds x _ (some (max 1 (n) - 1)) hz]
+          · simp [isHex, expLetter, FConv.upper, fPrefix, hh]
+          · simp only [hst, hP, hh, if_true]
+            by_cases hl : ds.length = 0
+            · simp only [hl, eq_self_iff_true, if_true]; omega
+            · simp only [hl, if_false]; omega
+        | false =>
+          rw [emit_sci .g f W (.num n) sign ds x _ none hz]
+          · simp [isHex, expLetter, FConv.upper, fPrefix, hh]
+          · simp [hst, hh]
+      · simp only [hs, if_false]
+        cases hh : f.hash with
+        | true =>
+          rw [emit_fixed .g rfl f W (.num n) sign ds x _ (some (if x ≥ 1 then (n) - x.toNat else (n) - 1))]
+          · simp [FConv.upper, hh]
+          · simp only [hst, hP, hh, if_true]
+            unfold fA fIz
+            by_cases hx : x ≤ 0
+            · have : ¬ x ≥ 1 := by omega
+              simp only [hx, this, if_true, if_false]; omega
+            · have : x ≥ 1 := by omega
+              simp only [hx, this, if_true, if_false]; omega
+        | false =>
+          rw [emit_fixed .g rfl f W (.num n) sign ds x _ none]
+          · simp [FConv.upper, hh]
+          · simp [hst, hh]
+  | G =>
+    have hb : ∀ pr, (closedParams .G f W pr).base.natAbs = 10 := fun _ => rfl
+    rw [request_fst]
+    unfold choose bodyF
+    simp only [show ∀ pr, (closedParams .G f W pr).conv = 3 from fun _ => rfl, hb, show ¬ ((3 : Nat) = 1) by decide,
+      show ¬ ((3 : Nat) = 2) by decide, and_true, if_false, if_true]
+    cases prec with
+    | dflt =>
+      have hP : (closedParams .G f W .dflt).conv = 3 := rfl
+      have hst : (closedParams .G f W .dflt).showtrailing = f.hash := by simp [closedParams, isHex, convNum]
+      have hprec : (if (closedParams .G f W .dflt).prec ≤ -1 then (mpfSignificantDigits 10 fprec : Int)
+          else (closedParams .G f W .dflt).prec) = ((6 : Nat) : Int) := by
+        rfl
+      rw [hprec]
+      have hmax : (((max 1 (6) : Nat)) : Int) = max 1 ((6 : Nat) : Int) := by omega
+      simp only [show FConv.G.base = 10 from rfl, hmax]
+      by_cases hs : x - 1 < -4 ∨ x - 1 ≥ max 1 ((6 : Nat) : Int)
+      · simp only [hs, if_true]
+        cases hh : f.hash with
+        | true =>
+          rw [emit_sci .G f W .dflt sign ds x _ (some (max 1 (6) - 1)) hz]
+          · simp [isHex, expLetter, FConv.upper, fPrefix, hh]
+          · simp only [hst, hP, hh, if_true]
+            by_cases hl : ds.length = 0
+            · simp only [hl, eq_self_iff_true, if_true]; omega
+            · simp only [hl, if_false]; omega
+        | false =>
+          rw [emit_sci .G f W .dflt sign ds x _ none hz]
+          · simp [isHex, expLetter, FConv.upper, fPrefix, hh]
+          · simp [hst, hh]
+      · simp only [hs, if_false]
+        cases hh : f.hash with
+        | true =>
+          rw [emit_fixed .G rfl f W .dflt sign ds x _ (some (if x ≥ 1 then (6) - x.toNat else (6) - 1))]
+          · simp [FConv.upper, hh]
+          · simp only [hst, hP, hh, if_true]
+            unfold fA fIz
+            by_cases hx : x ≤ 0
+            · have : ¬ x ≥ 1 := by omega
+              simp only [hx, this, if_true, if_false]; omega
+            · have : x ≥ 1 := by omega
+              simp only [hx, this, if_true, if_false]; omega
+        | false =>
+          rw [emit_fixed .G rfl f W .dflt sign ds x _ none]
+          · simp [FConv.upper, hh]
+          · simp [hst, hh]
+    | all =>
+      have hP : (closedParams .G f W .all).conv = 3 := rfl
+      have hst : (closedParams .G f W .all).showtrailing = f.hash := by simp [closedParams, isHex, convNum]
+      have hprec : (if (closedParams .G f W .all).prec ≤ -1 then (mpfSignificantDigits 10 fprec : Int)
+          else (closedParams .G f W .all).prec) = ((mpfSignificantDigits 10 fprec : Nat) : Int) := by
+        rfl
+      rw [hprec]
+      have hmax : (((max 1 (mpfSignificantDigits 10 fprec) : Nat)) : Int) = max 1 ((mpfSignificantDigits 10 fprec : Nat) : Int) := by omega
+      simp only [show FConv.G.base = 10 from rfl, hmax]
+      by_cases hs : x - 1 < -4 ∨ x - 1 ≥ max 1 ((mpfSignificantDigits 10 fprec : Nat) : Int)
+      · simp only [hs, if_true]
+        cases hh : f.hash with
+        | true =>
+          rw [emit_sci .G f W .all sign ds x _ (some (max 1 (mpfSignificantDigits 10 fprec) - 1)) hz]
+          · simp [isHex, expLetter, FConv.upper, fPrefix, hh]
+          · simp only [hst, hP, hh, if_true]
+            by_cases hl : ds.length = 0
+            · simp only [hl, eq_self_iff_true, if_true]; omega
+            · simp only [hl, if_false]; omega
+        | false =>
+          rw [emit_sci .G f W .all sign ds x _ none hz]
+          · simp [isHex, expLetter, FConv.upper, fPrefix, hh]
+          · simp [hst, hh]
+      · simp only [hs, if_false]
+        cases hh : f.hash with
+        | true =>
+          rw [emit_fixed .G rfl f W .all sign ds x _ (some (if x ≥ 1 then (mpfSignificantDigits 10 fprec) - x.toNat else (mpfSignificantDigits 10 fprec) - 1))]
+          · simp [FConv.upper, hh]
+          · simp only [hst, hP, hh, if_true]
+            unfold fA fIz
+            by_cases hx : x ≤ 0
+            · have : ¬ x ≥ 1 := by omega
+              simp only [hx, this, if_true, if_false]; omega
+            · have : x ≥ 1 := by omega
+              simp only [hx, this, if_true, if_false]; omega
+        | false =>
+          rw [emit_fixed .G rfl f W .all sign ds x _ none]
+          · simp [FConv.upper, hh]
+          · simp [hst, hh]
+    | num n =>
+      have hP : (closedParams .G f W (.num n)).conv = 3 := rfl
+      have hst : (closedParams .G f W (.num n)).showtrailing = f.hash := by simp [closedParams, isHex, convNum]
+      have hprec : (if (closedParams .G f W (.num n)).prec ≤ -1 then (mpfSignificantDigits 10 fprec : Int)
+          else (closedParams .G f W (.num n)).prec) = ((n : Nat) : Int) := by
+        have hp1 : (closedParams .G f W (.num n)).prec = (n : Int) := rfl
+        simp only [hp1, show ¬ ((n : Int) ≤ -1) by omega, if_false]
+      rw [hprec]
+      have hmax : (((max 1 (n) : Nat)) : Int) = max 1 ((n : Nat) : Int) := by omega
+      simp only [show FConv.G.base = 10 from rfl, hmax]
+      by_cases hs : x - 1 < -4 ∨ x - 1 ≥ max 1 ((n : Nat) : Int)
+      · simp only [hs, if_true]
+        cases hh : f.hash with
+        | true =>
+          rw [emit_sci .G f W (.num n) sign ds x _ (some (max 1 (n) - 1)) hz]
+          · simp [isHex, expLetter, FConv.upper, fPrefix, hh]
+          · simp only [hst, hP, hh, if_true]
+            by_cases hl : ds.length = 0
+            · simp only [hl, eq_self_iff_true, if_true]; omega
+            · simp only [hl, if_false]; omega
+        | false =>
+          rw [emit_sci .G f W (.num n) sign ds x _ none hz]
+          · simp [isHex, expLetter, FConv.upper, fPrefix, hh]
+          · simp [hst, hh]
+      · simp only [hs, if_false]
+        cases hh : f.hash with
+        | true =>
+          rw [emit_fixed .G rfl f W (.num n) sign ds x _ (some (if x ≥ 1 then (n) - x.toNat else (n) - 1))]
+          · simp [FConv.upper, hh]
+          · simp only [hst, hP, hh, if_true]
+            unfold fA fIz
+            by_cases hx : x ≤ 0
+            · have : ¬ x ≥ 1 := by omega
+              simp only [hx, this, if_true, if_false]; omega
+            · have : x ≥ 1 := by omega
+              simp only [hx, this, if_true, if_false]; omega
+        | false =>
+          rw [emit_fixed .G rfl f W (.num n) sign ds x _ none]
+          · simp [FConv.upper, hh]
+          · simp [hst, hh]
+  | a =>
+    have hP : (closedParams .a f W prec).conv = 2 := rfl
+    have hst : (closedParams .a f W prec).showtrailing = true := by simp [closedParams, isHex, convNum]
+    rw [request_fst]
+    unfold choose bodyF
+    simp only [hP, show ¬ ((2 : Nat) = 1) by decide, show ¬ ((2 : Nat) = 3) by decide, and_false, if_false, if_true]
+    cases prec with
+    | all =>
+      have hp1 : (closedParams .a f W .all).prec = -1 := rfl
+      simp only [hp1, show ((-1 : Int) ≤ -1) by decide, if_true]
+      rw [emit_sci .a f W .all sign ds x _ none hz]
+      · simp [isHex, expLetter, FConv.upper, fPrefix]
+      · simp only [hst, hP, if_true, show ¬ ((2 : Nat) = 3) by decide, if_false]
+        omega
+    | dflt =>
+      have hp1 : (closedParams .a f W .dflt).prec = -1 := rfl
+      simp only [hp1, show ((-1 : Int) ≤ -1) by decide, if_true]
+      rw [emit_sci .a f W .dflt sign ds x _ none hz]
+      · simp [isHex, expLetter, FConv.upper, fPrefix]
+      · simp only [hst, hP, if_true, show ¬ ((2 : Nat) = 3) by decide, if_false]
+        omega
+    | num n =>
+      have hp1 : (closedParams .a f W (.num n)).prec = (n : Int) := rfl
+      simp only [hp1, show ¬ ((n : Int) ≤ -1) by omega, if_false]
+      rw [emit_sci .a f W (.num n) sign ds x _ (some n) hz]
+      · simp [isHex, expLetter, FConv.upper, fPrefix]
+      · simp only [hst, hP, if_true, show ¬ ((2 : Nat) = 3) by decide, if_false]
+        omega
+  | A =>
+    have hP : (closedParams .A f W prec).conv = 2 := rfl
+    have hst : (closedParams .A f W prec).showtrailing = true := by simp [closedParams, isHex, convNum]
+    rw [request_fst]
+    unfold choose bodyF
+    simp only [hP, show ¬ ((2 : Nat) = 1) by decide, show ¬ ((2 : Nat) = 3) by decide, and_false, if_false, if_true]
+    cases prec with
+    | all =>
+      have hp1 : (closedParams .A f W .all).prec = -1 := rfl
+      simp only [hp1, show ((-1 : Int) ≤ -1) by decide, if_true]
+      rw [emit_sci .A f W .all sign ds x _ none hz]
+      · simp [isHex, expLetter, FConv.upper, fPrefix]
+      · simp only [hst, hP, if_true, show ¬ ((2 : Nat) = 3) by decide, if_false]
+        omega
+    | dflt =>
+      have hp1 : (closedParams .A f W .dflt).prec = -1 := rfl
+      simp only [hp1, show ((-1 : Int) ≤ -1) by decide, if_true]
+      rw [emit_sci .A f W .dflt sign ds x _ none hz]
+      · simp [isHex, expLetter, FConv.upper, fPrefix]
+      · simp only [hst, hP, if_true, show ¬ ((2 : Nat) = 3) by decide, if_false]
+        omega
+    | num n =>
+      have hp1 : (closedParams .A f W (.num n)).prec = (n : Int) := rfl
+      simp only [hp1, show ¬ ((n : Int) ≤ -1) by omega, if_false]
+      rw [emit_sci .A f W (.num n) sign ds x _ (some n) hz]
+      · simp [isHex, expLetter, FConv.upper, fPrefix]
+      · simp only [hst, hP, if_true, show ¬ ((2 : Nat) = 3) by decide, if_false]
+        omega
+
 end Mpir.PrintfF
